@@ -76,3 +76,85 @@ async fn verif_enum_window_search() {
     }
     println!("ENUM-OK cases={cases}");
 }
+
+// ---------------------------------------------------------------------------------------------
+// Witness finder / bounded stand-in for C35: random stores (gaps that were never synced, gaps that were pruned, sampled
+// marks), random window cut-offs in either order, a daser that grants by an arbitrary rule; one
+// get_next_prunable_batch on a fresh Worker, every height of the batch checked against the property's wording.
+// ---------------------------------------------------------------------------------------------
+struct XorShift(u64);
+impl XorShift {
+    fn next(&mut self) -> u64 { self.0 ^= self.0 << 13; self.0 ^= self.0 >> 7; self.0 ^= self.0 << 17; self.0 }
+    fn below(&mut self, n: u64) -> u64 { self.next() % n }
+}
+
+#[async_test]
+async fn verif_model_prunable_batch() {
+    let seed: u64 = std::env::var("VERIF_SEED").ok().and_then(|s| s.parse().ok()).unwrap_or(0);
+    let rounds: u64 = std::env::var("VERIF_ROUNDS").ok().and_then(|s| s.parse().ok()).unwrap_or(120);
+    let n = 60u64;
+    let mut checked = 0u64;
+    for round in 0..rounds {
+        let mut rng = XorShift(0x9E3779B97F4A7C15 ^ seed.wrapping_mul(2654435761).wrapping_add(round + 1));
+        let base = (Time::now() - Duration::from_secs(500_000)).unwrap();
+        let mut generator = ExtendedHeaderGenerator::new();
+        generator.set_time(base, Duration::from_secs(1));
+        let store = Arc::new(InMemoryStore::new());
+        // runs of stored heights separated by never-synced gaps
+        let mut h = 1u64;
+        let mut times = std::collections::BTreeMap::new();
+        while h <= n {
+            let run = 1 + rng.below(12);
+            let hs = generator.next_many_empty_verified(run.min(n - h + 1));
+            for x in hs.as_ref().iter() { times.insert(x.height(), x.time()); }
+            store.insert(hs).await.unwrap();
+            h += run;
+            if h <= n && rng.below(3) == 0 { let gap = 1 + rng.below(4); generator.skip(gap); h += gap; }
+        }
+        // pruned gaps and sampled marks
+        let stored0: Vec<u64> = times.keys().copied().collect();
+        for &x in stored0.iter() { if rng.below(9) == 0 { store.remove_height(x).await.unwrap(); } }
+        let stored = store.get_stored_header_ranges().await.unwrap();
+        let pruned = store.get_pruned_ranges().await.unwrap();
+        for &x in stored0.iter() { if stored.contains(x) && rng.below(3) != 0 { store.mark_as_sampled(x).await.unwrap(); } }
+        let sampled = store.get_sampled_ranges().await.unwrap();
+        // cut-offs anywhere (ties included), in either order
+        let first = *times.values().next().unwrap();
+        let sampling_cutoff = (first + Duration::from_secs(rng.below(n + 8))).unwrap();
+        let pruning_cutoff = (first + Duration::from_secs(rng.below(n + 8))).unwrap();
+        let grant_rule = rng.below(4);
+        let grants = move |x: u64| match grant_rule { 0 => true, 1 => false, 2 => x % 2 == 0, _ => x % 3 != 0 };
+        let (daser, mut daser_handle) = Daser::mocked();
+        spawn(async move {
+            while let Some(cmd) = daser_handle.cmd_rx.recv().await {
+                if let crate::daser::DaserCmd::WantToPrune { height, respond_to } = cmd { let _ = respond_to.send(grants(height)); }
+            }
+        });
+        let events = EventChannel::new();
+        let mut worker = Worker::new(PrunerArgs {
+            daser: Arc::new(daser), store: store.clone(), blockstore: Arc::new(InMemoryBlockstore::new()), event_pub: events.publisher(),
+            block_time: Duration::from_secs(1), pruning_window: Duration::from_secs(60), sampling_window: Duration::from_secs(120),
+        }, CancellationToken::new());
+        let batch = match worker.get_next_prunable_batch(sampling_cutoff, pruning_cutoff).await {
+            Ok(b) => b,
+            Err(e) => { println!("WITNESS C35: get_next_prunable_batch failed: {e} (seed {seed}, round {round})"); panic!("witness"); }
+        };
+        if batch.len() > 512 { println!("WITNESS C35: batch of {} blocks", batch.len()); panic!("witness"); }
+        let synced = |x: u64| stored.contains(x) || pruned.contains(x);
+        for x in 1..=n + 20 {
+            if !batch.contains(x) { continue; }
+            checked += 1;
+            let ctx = format!("stored={stored} pruned={pruned} sampled={sampled} sampling cut-off=first+{}s pruning cut-off=first+{}s (seed {seed}, round {round})",
+                (sampling_cutoff.duration_since(first).map(|d| d.as_secs() as i64).unwrap_or(-1)), (pruning_cutoff.duration_since(first).map(|d| d.as_secs() as i64).unwrap_or(-1)));
+            if !stored.contains(x) { println!("WITNESS C35: height {x} is in the batch but not stored; {ctx}"); panic!("witness"); }
+            let t = times[&x];
+            if t > pruning_cutoff { println!("WITNESS C35: height {x} is inside the pruning window but in the batch; {ctx}"); panic!("witness"); }
+            if t > sampling_cutoff {
+                if !sampled.contains(x) { println!("WITNESS C35: height {x} is inside the sampling window and NOT sampled but in the batch; {ctx}"); panic!("witness"); }
+                if !synced(x - 1) && x > 1 || !synced(x + 1) || x == 1 { println!("WITNESS C35: height {x} is inside the sampling window and borders an unsynced gap but is in the batch; {ctx}"); panic!("witness"); }
+            }
+            if !sampled.contains(x) && !grants(x) { println!("WITNESS C35: height {x} is unsampled and the daser refused it, but it is in the batch; {ctx}"); panic!("witness"); }
+        }
+    }
+    println!("ENUM-OK cases={checked}");
+}
